@@ -268,6 +268,10 @@ namespace lab
         mutable std::atomic<unsigned long long> queries{0};
         mutable std::atomic<unsigned long long> hash{1469598103934665603ULL};
         bool hashing{false};
+        const World &world() const
+        {
+            return w_;
+        }
 
     private:
         World w_;
@@ -319,6 +323,34 @@ namespace lab
         return Entry{n, f, [](const ob::SpaceInformationPtr &si) { return std::make_shared<P>(si); }};
     }
 
+    // multilevel planners plan on a sequence of spaces: the problem's space on top of its R^2 base
+    // (SE(2) -> R^2, R^3 -> R^2); on R^2 itself the sequence has one level
+    template <class P>
+    Entry EM(const std::string &n, unsigned f)
+    {
+        return Entry{n, f | F_MULTILEVEL, [](const ob::SpaceInformationPtr &si) -> ob::PlannerPtr {
+                         std::vector<ob::SpaceInformationPtr> levels;
+                         auto *wv = dynamic_cast<WorldValidity *>(si->getStateValidityChecker().get());
+                         if (wv && si->getStateSpace()->getDimension() > 2)
+                         {
+                             auto base = std::make_shared<ob::RealVectorStateSpace>(2);
+                             ob::RealVectorBounds b(2);
+                             b.setLow(0, 0);
+                             b.setHigh(0, wv->world().W);
+                             b.setLow(1, 0);
+                             b.setHigh(1, wv->world().H);
+                             base->setBounds(b);
+                             base->setLongestValidSegmentFraction(si->getStateSpace()->getLongestValidSegmentFraction());
+                             auto bsi = std::make_shared<ob::SpaceInformation>(base);
+                             bsi->setStateValidityChecker(std::make_shared<WorldValidity>(bsi, wv->world()));
+                             bsi->setup();
+                             levels.push_back(bsi);
+                         }
+                         levels.push_back(si);
+                         return std::make_shared<P>(levels);
+                     }};
+    }
+
     inline std::vector<Entry> registry()
     {
         std::vector<Entry> r;
@@ -363,6 +395,10 @@ namespace lab
         r.push_back(E<og::BiRLRT>("BiRLRT", F_BIDIR));
         r.push_back(E<og::CForest>("CForest", F_MT | F_OPT | F_APPROX));
         r.push_back(E<og::AnytimePathShortening>("AnytimePathShortening", F_MT | F_OPT | F_APPROX));
+        r.push_back(EM<ompl::multilevel::QRRT>("QRRT", F_APPROX));
+        r.push_back(EM<ompl::multilevel::QRRTStar>("QRRTStar", F_APPROX));
+        r.push_back(EM<ompl::multilevel::QMP>("QMP", F_APPROX));
+        r.push_back(EM<ompl::multilevel::QMPStar>("QMPStar", F_APPROX));
         return r;
     }
 
@@ -544,6 +580,8 @@ namespace lab
             return false;  // no default projection registered for arbitrary compounds
         if (kind == "DUBINS" && (e.flags & (F_SYMM | F_BIDIR)))
             return false;  // asymmetric distance: only direction-aware (forward tree) planners
+        if ((e.flags & F_MULTILEVEL) && !(kind == "R2" || kind == "SE2" || kind == "R3"))
+            return false;  // projections exist for SE(2) -> R^2 and R^3 -> R^2
         return true;
     }
 
